@@ -1003,8 +1003,9 @@ class ServerSSM(SSM):
 
         # some kind of problem
         if (apdu.apduType == AbortPDU.pduType):
+            # forward the abort to the application, not back to the client
             self.set_state(COMPLETED)
-            self.response(apdu)
+            self.request(apdu)
             return
 
         # the only messages we should be getting are confirmed requests
@@ -1132,8 +1133,9 @@ class ServerSSM(SSM):
 
         # some kind of problem
         elif (apdu.apduType == AbortPDU.pduType):
+            # forward the abort to the application, not back to the client
             self.set_state(COMPLETED)
-            self.response(apdu)
+            self.request(apdu)
 
         else:
             raise RuntimeError("invalid APDU (7)")
